@@ -24,7 +24,7 @@ EXPLANATION = (
     'h escaped unit becomes escape + unit with one escape unit and no double escaping; _tokenize takes its decisions from t'
     "he current unit, constants and its own state, a machine over (separator set) x ({':', '=', backslash, other}) x (next "
     'unit): every description over that alphabet up to length 4 equals the documented tokenizer; every unit the tokenizer t'
-    "reats specially in either separator state is escaped by the writer (F46: '=' was missing; fixed). STRUCTURAL: serverFr"
+    "reats specially - printable ASCII, TAB, LF, a non-ASCII unit and every one-unit literal the reader's code mentions, probed at the start, inside, at the end of and as a whole positional / keyword / later argument against the same description with a plain letter in its place - is escaped by the writer (F46: '=' was missing; fixed). STRUCTURAL: serverFr"
     'omString, _parseServer and clientFromString pass their description unchanged to the parser on every path. BOUNDED only'
     ': _parse(_tokenize(...)) with quoteStringArgument(t) as first / last positional and keyword argument for texts <= 3 ov'
     'er the alphabet plus white space / non-ASCII samples. Not decided: per-endpoint conversion of the parsed strings.'
@@ -132,23 +132,46 @@ def check(ctx):
         tok = interp(ft, funcs, env0)
         S = env0["_STRING"]
         rspecials, resc = set(), set()
-        for u in [chr(c) for c in range(0x20, 0x7F)] + ["\t", "\n", "\u00e9"]:
-            plain = "a" + u + "b"
-            t1, e1 = _call(tok, plain)
-            t2, e2 = _call(tok, "k=" + plain)
-            if e1 is not None or e2 is not None:
-                raise AnalysisError(f"_tokenize not evaluable on {plain!r}: {e1 or e2}")
-            t1, t2 = list(t1), list(t2)
-            if t1 == [(S, "ab")]:
+        # probe units: printable ASCII, some others, and every one-unit literal the reader's code mentions (so a newly introduced metacharacter is probed wherever it lies)
+        mentioned = {x.value for fn_ in ("_tokenize", "_parse") for x in ast.walk(ctx.func(EP, fn_)) if isinstance(x, ast.Constant) and isinstance(x.value, str) and len(x.value) == 1}
+        units = [chr(c) for c in range(0x20, 0x7F)] + ["\t", "\n", "\u00e9"]
+        units += sorted(mentioned - set(units))
+        def plain_letter(c):
+            got, err = _call(tok, "a" + c + "b")
+            return err is None and list(got) == [(S, "a" + c + "b")]
+        neutral = next((c for c in "qzwv" if plain_letter(c)), None)
+        if neutral is None:
+            raise AnalysisError("_tokenize: no neutral probe letter")
+        where, ref_cache = {}, {}
+        for u in units:
+            t1, e1 = _call(tok, "a" + u + "b")
+            if e1 is None and list(t1) == [(S, "ab")]:
                 resc.add(u)
-            if t1 != [(S, plain)] or not t2 or t2[-1] != (S, plain):
-                rspecials.add(u)
+            if u == neutral:
+                continue
+            # the unit at the start, in the middle, at the end, alone and doubled; as positional argument, keyword value, later argument; followed by more or not:
+            # it is plain iff the description tokenizes exactly as with a neutral letter in its place
+            for text in (u + "b", "a" + u + "b", "a" + u, u, u + u):
+                for pre in ("", "k=", "x:"):
+                    for post in ("", ":k=y"):
+                        rk = pre + text.replace(u, neutral) + post
+                        if rk not in ref_cache:
+                            ref_cache[rk] = _call(tok, rk)
+                        ref, eref = ref_cache[rk]
+                        if eref is not None:
+                            raise AnalysisError(f"_tokenize not evaluable on {pre + text.replace(u, neutral) + post!r}: {eref}")
+                        want_t = [(k_, v_.replace(neutral, u) if k_ == S else v_) for k_, v_ in ref]
+                        got, e1 = _call(tok, pre + text + post)
+                        if (e1 is not None or list(got) != want_t) and u not in rspecials:
+                            rspecials.add(u)
+                            where[u] = (pre + text + post, e1 if e1 is not None else list(got), want_t)
         ctx.check(len(resc) == 1 and resc <= written, "quote/covers-reader-specials", f"{base}quoteStringArgument | reader's escape unit",
                   f"_tokenize treats {sorted(resc)!r} as 'next unit is literal'; quoteStringArgument escapes {sorted(written)!r}")
         for u in sorted(rspecials):
             ctx.check(u in written, "quote/covers-reader-specials", f"{base}quoteStringArgument | reader-special {u!r}",
-                      f"_tokenize gives {u!r} a special meaning ({'escape' if u == esc else 'argument / keyword separator'}) but quoteStringArgument does not escape it: "
-                      + ("a quoted positional argument containing '=' is parsed as a keyword" if u == "=" else "the quoted text is split or altered when parsed"))
+                      f"_tokenize gives {u!r} a special meaning ({'escape' if u == esc else 'separator or other metacharacter'}) but quoteStringArgument does not escape it: "
+                      + ("a quoted positional argument containing '=' is parsed as a keyword" if u == "=" else "the quoted text is split or altered when parsed")
+                      + f" (e.g. {where[u][0]!r} tokenizes to {where[u][1]!r}, with a plain letter in its place to {where[u][2]!r})")
         ctx.floor("quote/covers-reader-specials", len(rspecials), 2)
 
     # ---- bounded round trip through _parse --------------------------------------------------------------------------------------------------
@@ -213,8 +236,11 @@ MUTANTS = [
     Mutant("parse-keyword-takes-last-part", EP, "            kw[nativeString(sofar[0])] = sofar[1]\n", "            kw[nativeString(sofar[0])] = sofar[-1].strip()\n", expect_rule="roundtrip/parse-of-quoted"),
     Mutant("client-description-preprocessed", EP, "    args, kwargs = _parse(description)\n", "    args, kwargs = _parse(description.replace(\"\\\\\\\\\", \"/\"))\n",
            expect_rule="entry/description-parsed-verbatim"),
+    Mutant('tokenizer-learns-double-quoted-values-writer-does-not', EP, '        elif n == backslash:\n            current += next(iterdesc)\n        else:\n', '        elif n == backslash:\n            current += next(iterdesc)\n        elif n == dquote and not current:\n            for n in iterdesc:\n                if n == dquote:\n                    break\n                current += n\n        else:\n', more=[(EP, '    current = empty\n\n    ops = colon + equals\n', '    dquote = _matchingString(\'"\', description)\n    current = empty\n\n    ops = colon + equals\n')], expect_rule='quote/covers-reader-specials'),
+    Mutant('tokenizer-treats-hash-as-end-of-description', EP, '        elif n == backslash:\n            current += next(iterdesc)\n        else:\n', '        elif n == backslash:\n            current += next(iterdesc)\n        elif n == _matchingString("#", description):\n            break\n        else:\n', expect_rule='quote/covers-reader-specials'),
 ]
 SILENT = [
+    Silent('double-quoted-values-known-to-reader-and-writer', EP, '        elif n == backslash:\n            current += next(iterdesc)\n        else:\n', '        elif n == backslash:\n            current += next(iterdesc)\n        elif n == dquote and not current:\n            for n in iterdesc:\n                if n == dquote:\n                    break\n                current += n\n        else:\n', more=[(EP, '    current = empty\n\n    ops = colon + equals\n', '    dquote = _matchingString(\'"\', description)\n    current = empty\n\n    ops = colon + equals\n'), (EP, '    backslash, colon, equals = "\\\\:="\n    for c in backslash, colon, equals:\n        argument = argument.replace(c, backslash + c)\n', '    backslash, colon, equals, dquote = "\\\\:=\\""\n    for c in backslash, colon, equals, dquote:\n        argument = argument.replace(c, backslash + c)\n')]),
     Silent("quote-explicit-chain", EP, _Q, '    backslash, colon, equals = "\\\\:="\n    argument = argument.replace(backslash, backslash + backslash).replace(equals, backslash + equals).replace(colon, backslash + colon)\n'),
     Silent("quote-by-regex", EP, _Q, '    return re.sub(r"([\\\\:=])", r"\\\\\\1", argument)\n'),
     Silent("quote-char-by-char", EP, _Q, '    return "".join("\\\\" + ch if ch in "\\\\:=" else ch for ch in argument)\n'),
